@@ -31,7 +31,7 @@ PInit(cap, len, failAt) ==
     len |-> len, failAt |-> failAt,
     cause |-> "none", steps |-> 0,
     idle |-> 0, lastProd |-> 0,
-    exited |-> FALSE, created |-> FALSE,
+    exited |-> FALSE, created |-> FALSE, played |-> FALSE,
     failed |-> FALSE, cbSinceFail |-> 0, popped |-> 0,
     stoppedSeen |-> FALSE, cbSinceStopped |-> 0,
     gone |-> FALSE,              \* the sound itself was rejected / discarded: nothing left to stop or unload
@@ -68,6 +68,8 @@ Check(m, e) ==
          ELSE IF m.failed /\ ~m.gone /\ m.cbSinceFail >= 1 /\ e.state # "Stopped" THEN "error_stops_the_sound"
          ELSE IF m.failed /\ m.cbSinceFail >= 1 /\ ~e.zero THEN "no_audio_after_error"
          ELSE IF m.stoppedSeen /\ e.nsounds # 0 THEN "unloaded_after_stopped"
+         \* (a sound whose creation returned the decoder's error was never loaded: it occupies nothing)
+         ELSE IF m.played /\ ~m.created /\ e.nsounds # 0 THEN "failed_sound_is_not_loaded"
          ELSE ""
     [] e.a = "pop" ->
          IF m.popped = 0 /\ e.msg # 0 /\ e.msg # m.failAt THEN "first_error_reaches_the_handle"
@@ -81,7 +83,7 @@ Check(m, e) ==
 Cause(m, c) == IF m.cause = "none" THEN [m EXCEPT !.cause = c, !.steps = 0] ELSE m
 
 Upd(m, e) ==
-  CASE e.a = "play" -> [m EXCEPT !.created = e.ok]
+  CASE e.a = "play" -> [m EXCEPT !.created = e.ok, !.played = TRUE]
     [] e.a = "dec" ->
          LET m1 == IF e.site = "err" THEN Cause([m EXCEPT !.failed = TRUE], "failed")
                    ELSE IF e.site = "end" THEN Cause(m, "finished") ELSE m IN
